@@ -142,6 +142,11 @@ func c17Run(r *verdict.Run, e *emu, cs c17Case, rng *rand.Rand) {
 	mut.Timeout = 60 * time.Second
 	const coll = "coll"
 	used24 := map[uint64]bool{}
+	// (the names every case uses besides the generated ones take part in the filter: temporary elements of the
+	// pre-churn and churn phases, the names with glob metacharacters)
+	for _, fixedName := range append([]string{"tmp:0", "tmp:1", "tmp:2", "tmp:3", "tmp:4", "tmp:5", "tmp:6", "tmp:c", coll, coll + "-copy"}, c17SpecialNames...) {
+		used24[sutHash(fixedName)&(1<<24-1)] = true
+	}
 	usedLow := map[uint64]bool{}
 	compactMask := uint64(1)
 	if cs.compact {
